@@ -259,7 +259,6 @@ fn bit_expect<T: El>(op: Op, l: usize, a: &[T], b: &[T], c: &[T], ex: &mut Expec
 pub trait IntEl: El + Ord {
     const SIGNED: bool;
     const MINV: Self;
-    const MAXV: Self;
     const BITS: u32;
     fn wadd(self, o: Self) -> Self;
     fn wsub(self, o: Self) -> Self;
@@ -278,7 +277,6 @@ macro_rules! impl_int_el {
         impl IntEl for $t {
             const SIGNED: bool = $signed;
             const MINV: Self = <$t>::MIN;
-            const MAXV: Self = <$t>::MAX;
             const BITS: u32 = <$t>::BITS;
             fn wadd(self, o: Self) -> Self {
                 self.wrapping_add(o)
